@@ -55,14 +55,36 @@ def case_class(c):
     return "%s:%s:%s%s" % (c["flow"], c["stage"], c["tamper"], "" if t2 == "none" else "+" + t2)
 
 
-def write_cfg(name, skip, nin, nch, emit, invs, pairflows=(), singles=True):
+# Defects of the unchanged tree that the transcription models as they are (Layer M must be exact on the pinned code):
+# each is a switch in SlateAlgebra!Skip that stays ON while the first key of the defect is listed as `known`; once
+# the maintainer has committed the patch and flipped the keys to `fixed`, the repaired transcription is used.
+DEVIATIONS = {"ctx_state_check": "C02/TamperRefused/self:pre:cc_both+st_swap"}
+
+
+def base_skip():
+    known = set(k["key"] for k in load_known() if k.get("property") == "C02" and k.get("status") == "known")
+    return sorted(sw for sw, key in DEVIATIONS.items() if key in known)
+
+
+def write_trace_cfg(checkm):
+    d = os.path.join(WORK, "cfg_C02")
+    os.makedirs(d, exist_ok=True)
+    p = os.path.join(d, "TraceTamper%s.cfg" % ("" if checkm else "P"))
+    with open(p, "w") as f:
+        f.write("CONSTANTS\n  Skip = {%s}\n  CheckM = %s\nSPECIFICATION TSpec\nPOSTCONDITION Consumed\nCHECK_DEADLOCK FALSE\n" % (
+            ", ".join('"%s"' % x for x in base_skip()), "TRUE" if checkm else "FALSE"))
+    return p
+
+
+def write_cfg(name, skip, nin, nch, emit, invs, pairflows=(), singles=True, pairproof=("TRUE", "FALSE")):
+    skip = sorted(set(skip) | set(base_skip()))
     d = os.path.join(WORK, "cfg_C02")
     os.makedirs(d, exist_ok=True)
     p = os.path.join(d, name + ".cfg")
     with open(p, "w") as f:
-        f.write("CONSTANTS\n  Skip = {%s}\n  NinSet = {%s}\n  NchSet = {%s}\n  Emit = %s\n  PairFlows = {%s}\n  WithSingles = %s\nSPECIFICATION Spec\n%sCHECK_DEADLOCK FALSE\n" % (
+        f.write("CONSTANTS\n  Skip = {%s}\n  NinSet = {%s}\n  NchSet = {%s}\n  Emit = %s\n  PairFlows = {%s}\n  PairProof = {%s}\n  WithSingles = %s\nSPECIFICATION Spec\n%sCHECK_DEADLOCK FALSE\n" % (
             ", ".join('"%s"' % x for x in skip), ", ".join(map(str, nin)), ", ".join(map(str, nch)), "TRUE" if emit else "FALSE",
-            ", ".join('"%s"' % x for x in pairflows), "TRUE" if singles else "FALSE", "".join("INVARIANT %s\n" % i for i in invs)))
+            ", ".join('"%s"' % x for x in pairflows), ", ".join(pairproof), "TRUE" if singles else "FALSE", "".join("INVARIANT %s\n" % i for i in invs)))
     return p
 
 
@@ -94,6 +116,7 @@ def split_trace(nd, n, tag):
 
 def validate(nd, tag, chunks):
     parts = split_trace(nd, chunks, tag)
+    cfg_m, cfg_p = write_trace_cfg(True), write_trace_cfg(False)
     viols, nonconfs, skips = [], [], []
     m_ok = True
 
@@ -104,12 +127,12 @@ def validate(nd, tag, chunks):
 
     def one(kp):
         k, p = kp
-        r, consumed = tv(os.path.join(SPEC, "TraceTamper.cfg"), p, "tv_%s_%d" % (tag, k))
+        r, consumed = tv(cfg_m, p, "tv_%s_%d" % (tag, k))
         ok, extra = True, []
         if consumed is None:
             ok = False
             extra = [{"line": -1, "id": -1, "what": "LayerM-evaluation-aborted", "cl": "", "info": r["out"][-600:]}]
-            r, consumed = tv(os.path.join(SPEC, "TraceTamperP.cfg"), p, "tvp_%s_%d" % (tag, k))
+            r, consumed = tv(cfg_p, p, "tvp_%s_%d" % (tag, k))
             if consumed is None:
                 log(r["out"][-3000:])
                 raise ToolError("trace validation did not consume the trace")
@@ -171,7 +194,7 @@ def selftest_corrupt(events):
     p = os.path.join(d, "corrupt.ndjson")
     with open(p, "w") as f:
         f.write("\n".join(lines) + "\n")
-    r = run_tlc("TraceTamper.tla", os.path.join(SPEC, "TraceTamperP.cfg"), "tv_C02_selftest", workers=1, env={"TRACE": p}, timeout=300,
+    r = run_tlc("TraceTamper.tla", write_trace_cfg(False), "tv_C02_selftest", workers=1, env={"TRACE": p}, timeout=300,
                 depth_first=True, keep_tags=("VIOL",), max_keep=10000)
     if tlc_consumed(r["out"]) is None:
         log(r["out"][-2000:])
@@ -210,13 +233,19 @@ def run(tier, replay_path, t0):
                     mutants[m] = dict(completed=r["completed"], caught_by=cl)
         mut_thread = threading.Thread(target=muts)
         mut_thread.start()
-        # the enumeration is split over six TLC processes: all single alterations, and the pairs flow by flow
+        # the enumeration is split over nine TLC processes: the single alterations by number of inputs, the pairs by flow and proof
         invs = ["Inv_Reply", "Inv_Honest", "Inv_FinalTxValidExact", "Inv_TamperRefused", "Inv_Reserved", "Inv_Retry", "Inv_RetrySucceeds", "EmitCase"]
-        jobs = [("singles", (), True)] + [("pairs_" + f, (f,), False) for f in FLOWS]
+        # (tag, pair flows, proof values of the pairs, singles with this many inputs or None)
+        jobs = [("singles1", (), (), 1), ("singles2", (), (), 2)]
+        for f in FLOWS:
+            if f in ("send", "late"):
+                jobs += [("pairs_%s_p" % f, (f,), ("TRUE",), None), ("pairs_%s_n" % f, (f,), ("FALSE",), None)]
+            else:
+                jobs.append(("pairs_" + f, (f,), ("FALSE",), None))
 
         def mc_part(j):
-            tag, pf, singles = j
-            cfg = write_cfg("mc_" + tag, [], [1, 2], [0, 1, 2], True, invs, pairflows=pf, singles=singles)
+            tag, pf, pp, nin = j
+            cfg = write_cfg("mc_" + tag, [], [nin] if nin else [1, 2], [0, 1, 2], True, invs, pairflows=pf, singles=nin is not None, pairproof=pp or ("FALSE",))
             r = run_tlc("MCSlateAlgebra.tla", cfg, "mc_C02_%s_%s" % (tier, tag), workers=2, timeout=600, extra=["-continue"], keep_tags=("CASE",), max_keep=1000000)
             if not r["completed"] and not r["violated"]:
                 log(r["out"][-3000:])
@@ -257,16 +286,25 @@ def run(tier, replay_path, t0):
         rest = sorted((c for c in pairs if not hot(c)), key=lambda c: json.dumps(c, sort_keys=True))
         rnd.shuffle(hots)
         rnd.shuffle(rest)
+        # model counter-examples (the transcription accepts what the algebra condemns) are never a verdict by
+        # themselves: they are always executed on the real code, first
+        cex = [c for c in allcases if (c["verdict"] == "must_fail" and c["predict"] == "ok") or (c["verdict2"] == "must_fail" and c["predict2"] == "ok")]
+        cexk = set(json.dumps(c, sort_keys=True) for c in cex)
+        hots = [c for c in hots if json.dumps(c, sort_keys=True) not in cexk]
+        stim = [c for c in stim if json.dumps(c, sort_keys=True) not in cexk]
+        if cex:
+            log("  %d model counter-examples, replayed on the real code: %s" % (len(cex), sorted(set(case_class(c) for c in cex))[:6]))
+        stim = cex + stim
         stim += hots[:T["pairs_hot"]] + rest[:T["pairs_rest"]]
         log("  stimulus: %d single alterations (%d classes), %d of %d hot pairs, %d of %d other pairs" % (
             len(stim) - len(hots[:T["pairs_hot"]]) - len(rest[:T["pairs_rest"]]), len(by), len(hots[:T["pairs_hot"]]), len(hots),
             len(rest[:T["pairs_rest"]]), len(rest)))
         # single alterations first (seeded order), then the pairs: a time budget that runs out cuts pairs first
         nsingle = len(stim) - len(hots[:T["pairs_hot"]]) - len(rest[:T["pairs_rest"]])
-        head, tail = stim[:nsingle], stim[nsingle:]
+        head, tail = stim[len(cex):nsingle], stim[nsingle:]
         rnd.shuffle(head)
         rnd.shuffle(tail)
-        stim = head + tail
+        stim = cex + head + tail
         # two deliveries: after a refused altered reply the genuine one is delivered as well - for every late-locked
         # case (the flow in which a refused finalize has already written to the store) but a seeded few, which keep
         # the direct cancel after the first refusal, and for a seeded share of the other flows
@@ -335,10 +373,10 @@ def run(tier, replay_path, t0):
             log("  spec mutant without %-32s: %s" % (m, ("caught by %d classes e.g. %s" % (len(r["caught_by"]), r["caught_by"][:4])) if r["caught_by"] else "NOT CAUGHT"))
         if any(not r["caught_by"] for r in mutants.values()):
             raise ToolError("a seeded spec mutant was not caught: the model invariants are vacuous")
-    st = selftest_corrupt(events) if not keys else None
+    known, new = classify("C02", keys)
+    st = selftest_corrupt(events) if not new else None
     if st:
         log("  binding self-test: %d corrupted trace lines rejected by the TLA+ monitors, the untouched line accepted" % st["corrupted_lines_rejected"])
-    known, new = classify("C02", keys)
     ran = [e for e in events if e.get("run") == "ok"]
     kinds, wit = {}, {"success_validated_and_mined": 0, "must_fail_refused": 0, "may_fail_succeeded": 0, "failed_then_cancelled": 0,
                       "late_lock_failed_after_locking": 0, "noreply": 0, "delivered_off_wire": 0,
@@ -389,7 +427,7 @@ def run(tier, replay_path, t0):
                      "observed_retry": ({k: e["o2"][k] for k in ("res", "tx", "resv", "cancel", "pending_after")} if "o2" in e else None)}
                     for e in rnd.sample(ran, min(6, len(ran)))],
         "exhaustive": bool(mc and mc["completed"]),
-        "mc_constants": {"Skip": [], "NinSet": [1, 2], "NchSet": [0, 1, 2], "PairFlows": list(FLOWS)},
+        "mc_constants": {"Skip": base_skip(), "NinSet": [1, 2], "NchSet": [0, 1, 2], "PairFlows": list(FLOWS)},
         "mc_wall_s": round(mc["wall_s"], 1) if mc else 0,
         "model_invariants_violated": sorted(set(x for t in mc["violated"] for x in t if x)) if mc else [],
         "cases_enumerated": len(allcases),
